@@ -158,29 +158,34 @@ def short(sig):
 
 
 def stale_stop_shape(trace):
-    """a Stop() on a restarted child returned before the child's new Run began, so the child was
-    started again while still running: StopRet c ... RunCall c ... RunCall c with no RunRet c between"""
+    """The specific shape of the finding stale-stop-on-restarted-child: Stop() is called on a child
+    whose previous Run has finished and whose new Run (its goroutine was launched by the last boot,
+    otherwise the child would not be in the configuration being stopped) has not been entered, and
+    that Run is entered afterwards:  RunRet c ... StopCall c (no Run of c in progress) ... RunCall c
+    with no boot of c in between that a later StopCall c addresses."""
     if not trace:
         return False
-    kids = set(e.split()[1] for e in trace if e.startswith("StopRet "))
-    for c in kids:
-        # a Run of c that had finished earlier, then a StopRet c, then a RunCall c that no later
-        # StopCall c addresses before the composite is observed Running
-        ran_before, stopped_at = False, None
-        for i, e in enumerate(trace):
-            t = e.split()
-            if len(t) >= 2 and t[1] == c:
-                if t[0] == "RunRet":
-                    ran_before = True
-                elif t[0] == "StopRet" and ran_before:
-                    stopped_at = i
-                elif t[0] == "StopCall":
-                    stopped_at = None
-                elif t[0] == "RunCall" and stopped_at is not None:
-                    rest = trace[i:]
-                    nxt = [x for x in rest if x.startswith("State ") or x == "StopCall " + c]
-                    if nxt and nxt[0] == "State Running":
-                        return True
+    live, ever, pending = {}, {}, {}
+    for e in trace:
+        t = e.split()
+        if len(t) < 2:
+            continue
+        c = t[1]
+        if t[0] == "RunCall":
+            if pending.get(c):
+                return True
+            live[c] = live.get(c, 0) + 1
+            ever[c] = True
+        elif t[0] == "RunRet":
+            live[c] = live.get(c, 0) - 1
+        elif t[0] == "StopCall":
+            # a Stop on a child that ran before and is not running now: its goroutine of the
+            # current generation has not entered Run (or the child exited by itself)
+            pending[c] = bool(ever.get(c)) and live.get(c, 0) == 0
+        elif t[0] == "Callback":
+            # a later boot legitimately restarts children: only a RunCall that precedes the next
+            # callback-driven boot of c counts; keep pending (the boot follows the stop directly)
+            pass
     return False
 
 
